@@ -186,14 +186,17 @@ Definition list_eqb (a b : list Q) : bool :=
   Nat.eqb (length a) (length b) && forallb (fun xy => Qeq_bool (fst xy) (snd xy)) (combine a b).
 
 (* ------------------------------------------------------------------------------------------ *)
-(** * HITS wrapper around the SVD oracle
+(** * HITS wrapper around the SVD oracle (current code)
 
-    [h_pos, h_neg = (hubs > 0).sum(), (hubs < 0).sum();
-     hubs = clip(hubs, 0) if h_pos > h_neg else clip(-hubs, 0)] and the same for authorities. *)
+    [hubs = clip(hubs, 0) if hubs.sum() > 0 else clip(-hubs, 0)] and the same for authorities. *)
+Definition clip_pos (u : list Q) : list Q := map (fun x => if Qltb x 0 then 0%Q else x) u.
+Definition clip_neg (u : list Q) : list Q := map (fun x => if Qltb (- x) 0 then 0%Q else (- x)%Q) u.
+Definition sign_fix (u : list Q) : list Q := if Qltb 0 (sumq u) then clip_pos u else clip_neg u.
+Definition hits (u v : list Q) : list Q * list Q := (sign_fix u, sign_fix v).
+
+(** Before the repair: orientation by COUNTING the positive and negative entries. *)
 Definition count (f : Q -> bool) (l : list Q) : nat := length (filter f l).
-Definition sign_fix (u : list Q) : list Q :=
+Definition old_sign_fix (u : list Q) : list Q :=
   let pos := count (fun x => Qltb 0 x) u in
   let neg := count (fun x => Qltb x 0) u in
-  if Nat.ltb neg pos then map (fun x => if Qltb x 0 then 0%Q else x) u
-  else map (fun x => if Qltb (- x) 0 then 0%Q else (- x)%Q) u.
-Definition hits (u v : list Q) : list Q * list Q := (sign_fix u, sign_fix v).
+  if Nat.ltb neg pos then clip_pos u else clip_neg u.
